@@ -1,7 +1,8 @@
 """C04 — importance weights follow the balance-heuristic mixture formula (DESIGN §2/C04)."""
+import ast
 import z3
 
-from pyvc.values import Ref, Arr, Opaque, Unsupported, to_z3, fresh_scalar, fresh_arr
+from pyvc.values import Ref, Arr, Opaque, Unsupported, to_z3, fresh_scalar, fresh_arr, fresh_name
 from pyvc import npmodel, symlist
 from pyvc.theories import sums, real
 from .common import *  # noqa
@@ -91,6 +92,107 @@ def main(ctx, normalize):
         return steps
 
     ctx.verify("normalised" if normalize else "unnormalised", SM, "StateManager.compute_logw_and_logz", setup, post,
+               registry=registry(), replayer="c04_logw")
+
+
+# --------------------------------------------------------------------------- O6: finite in binary64 on the stated domain
+def finite_range(ctx, normalize):
+    """'... stay finite for finite log-likelihoods of any magnitude': on the stated domain (|logL| <= 1e6, beta_t in [0,1],
+    |logz_t| <= 1e300, 1 <= n_t, T <= 1e4, N <= 1e10) every value the routine computes in its own source text — every
+    arithmetic result and every call result, element-wise for arrays — stays within the binary64 normal range (reals, a decade of
+    slack for rounding), and every divisor stays away from zero.  log-sum-exp results are bounded through the Lean lemma
+    lse_bounds (lo <= a_j <= hi for all j  =>  lo <= log sum exp a_j <= hi + log n), applied after the element bounds of the
+    argument array are proved.  np.logaddexp.reduce itself is numpy's overflow-free implementation (assumed); an explicit
+    np.exp(...) of the same arguments would be a recorded value and fails its bound (e^{1e6})."""
+    info = {}
+    rec = []
+    R = z3.RealVal
+    F_BIG, F_TINY = "1e307", "1e-307"
+
+    def setup(I, st):
+        sm, h = make_full_state(st)
+        T, lens, fns = h["T"], h["lens"], h["fns"]
+        st.assume(z3.And(T >= 1, T <= 10000))
+        bf = fresh_scalar("real", "beta_final")
+        st.assume(z3.And(bf >= 0, bf <= 1))
+        t, j = z3.Int("t!d"), z3.Int("j!d")
+        st.assume(z3.ForAll([t], z3.Implies(z3.And(t >= 0, t < T), z3.And(fns["beta"](t) >= 0, fns["beta"](t) <= 1, fns["logz"](t) >= -R("1e300"),
+                                                                          fns["logz"](t) <= R("1e300"), lens(t) >= 1, lens(t) <= 1000000)),
+                            patterns=[fns["beta"](t)]))
+        st.assume(z3.ForAll([t], z3.Implies(z3.And(t >= 0, t < T), z3.And(fns["logz"](t) >= -R("1e300"), fns["logz"](t) <= R("1e300"))),
+                            patterns=[fns["logz"](t)]))
+        st.assume(z3.ForAll([t], z3.Implies(z3.And(t >= 0, t < T), z3.And(lens(t) >= 1, lens(t) <= 1000000)), patterns=[lens(t)]))
+        st.assume(z3.ForAll([t, j], z3.And(fns["logl"](t, j) >= -1000000, fns["logl"](t, j) <= 1000000), patterns=[fns["logl"](t, j)]))
+        info.update(h, sm=sm, bf=bf)
+        I.value_hook = lambda st_, node, v, role: rec.append((role, v, node))
+        return dict(self_val=sm, args=[bf, normalize])
+
+    def post(I, o, pre):
+        from pyvc import discharge
+        I.value_hook = None
+        st = o.state
+        key = [k for k in st.ghost if isinstance(k, tuple) and k[0] == "flat"][0]
+        N, tt, off, la = st.ghost[key]
+        hints = [N >= 1, N <= 10000000000]                     # N = sum of T <= 1e4 batch sizes <= 1e6 (L-SUM: sum_le_card_mul)
+        lse_terms = list(st.ghost.get("lse_terms", []))
+        g = []
+
+        def elems(v):
+            if isinstance(v, Ref) and v.kind == "arr" and v.oid in st.heap:
+                v = st.arr(v)
+            if isinstance(v, Arr):
+                if v.sort != "real" or v.ndim not in (1, 2):
+                    return []
+                qs = [z3.Int(fresh_name("q")) for _ in range(v.ndim)]
+                dom = z3.And(*[z3.And(q >= 0, q < to_z3(v.shape[k], "int")) for k, q in enumerate(qs)])
+                return [(dom, to_z3(v.at(*qs), "real"))]
+            if z3.is_expr(v) and (z3.is_real(v) or z3.is_int(v)):
+                return [(z3.BoolVal(True), z3.ToReal(v) if z3.is_int(v) else v)]
+            return []
+
+        def prove(hyp, goal):
+            return discharge.check_formulas(list(st.pc) + hints + hyp + [z3.Not(goal)], 20000)[0] == "discharged"
+
+        # log-sum-exp results, in the order they were computed: element bounds of the argument first, then the Lean-lemma bound
+        for (val, a, axis) in lse_terms:
+            placed = False
+            for k in range(0, 6):
+                B = R("1e%d" % (301 + k))
+                ok = all(prove([dom], z3.And(t <= B, t >= -B)) for (dom, t) in elems(a))
+                if ok:
+                    for (dom, t) in elems(val):
+                        if isinstance(val, Arr):
+                            qv = [x for x in z3.z3util.get_vars(dom)] if hasattr(z3, "z3util") else []
+                        hints.append(z3.ForAll(_vars(dom), z3.Implies(dom, z3.And(t <= B + 25, t >= -B)), patterns=[t]) if _vars(dom) else z3.And(t <= B + 25, t >= -B))
+                    placed = True
+                    break
+            g.append((f"log-sum-exp #{len(g)}: arguments bounded (lemma lse_bounds applicable)", [], z3.BoolVal(placed)))
+        seen = set()
+        for (role, v, node) in rec:
+            keyn = (role, getattr(node, "lineno", 0), getattr(node, "col_offset", 0), getattr(node, "end_col_offset", 0))
+            if keyn in seen:
+                continue
+            seen.add(keyn)
+            src = ast.unparse(node)[:60]
+            for (dom, t) in elems(v):
+                if role == "denominator":
+                    g.append((f"line-{node.lineno}:divisor `{src}` stays away from zero", [dom], z3.Or(t >= R(F_TINY), t <= -R(F_TINY))))
+                else:
+                    g.append((f"line-{node.lineno}:`{src}` stays within the binary64 range", [dom], z3.And(t <= R(F_BIG), t >= -R(F_BIG))))
+        return [(nm, z3.Implies(z3.And(*(hints + hyp)), goal)) for (nm, hyp, goal) in g]
+
+    def _vars(dom):
+        out = []
+        def walk(e):
+            if z3.is_const(e) and e.decl().kind() == z3.Z3_OP_UNINTERPRETED and z3.is_int(e):
+                if not any(e.eq(x) for x in out) and str(e).startswith("q!"):
+                    out.append(e)
+            for c in e.children():
+                walk(c)
+        walk(dom)
+        return out
+
+    ctx.verify("binary64-range:" + ("normalised" if normalize else "unnormalised"), SM, "StateManager.compute_logw_and_logz", setup, post,
                registry=registry(), replayer="c04_logw")
 
 
